@@ -507,11 +507,13 @@ def isCrit (t : Topo) (s : State) (d : Nat) : Label → Bool
   | .recvEmp p e _ _ => decide (e ∈ path t d) && s.gone e && !(s.gone p)
   | _ => false
 
-/-- traffic a live path manager's outgoing thread adds to the path -/
+/-- traffic that a step adds to the path channels (outgoing thread of a path manager; a path
+worker writing): number of occurrences of the writer in the path (0 or 1) -/
 def growth (t : Topo) (s : State) (d : Nat) : Label → Nat
   | .flush n => match s.outq n with
-    | (.up, _) :: _ => b2n (decide (n ∈ path t d))
+    | (.up, _) :: _ => (path t d).count n
     | _ => 0
+  | .wsend w _ => (path t d).count w
   | _ => 0
 
 /-- `run` that also counts critical deliveries and growth -/
